@@ -38,11 +38,11 @@ CHECKS = {
  "C10": dict(level="translation_validation", engine="E2-export-smt", design="DESIGN.md §3 C10",
    technique="SAT product run (z3): for every (lexer state, slice) with a positive real check_subsume verdict, search a slice-language string that kills the lexeme automaton from that state (symbolic start state and bytes)",
    text="The exporter builds the lexer as to_cgrammar does (slice regexes as extra lexemes), asks the real subsume_possible/check_subsume for every state of every lexeme automaton, and the solver shows for all positive verdicts at once that no string of the slice language up to the longest token dies from that state. Negative verdicts serve as vacuity twins.",
-   note="Containment half only: the set algebra of TokenizerSlice::apply and bit-for-bit mask equality need a parser state and are outside."),
+   note="Also decided at table level: the per-slice masks and remainder tries precomputed by from_topo_node (dumped natively for a synthetic multi-byte vocabulary) cover every token of the slice whichever children applied (symbolic token id). The control flow of TokenizerSlice::apply at run time and bit-for-bit mask equality need a parser state and are outside."),
  "C13": dict(level="model_checking", engine="E1-kani+E2-export-smt", design="DESIGN.md §2 C13",
    technique="Kani/CBMC on add_bias with a symbolic start prefix and has_valid_extensions (symbolic acceptor); SAT query on every exported lexer state for the soundness of the next-byte hint forced_byte trusts",
    text="Left-over forced bytes as mandatory prefix of the next mask: add_bias(r, set, start) equals the per-token test for every acceptor and every 1-2 byte start; has_valid_extensions agrees. E2-13.3: ForcedByte(c) implies every other byte and end-of-input are dead, ForcedEOI implies every byte is dead, for every state of every exported automaton.",
-   note="K13.1 chop_tokens does not fit CBMC (12.9 GB at 400 s) and is not decided; forced_byte's probe, force_bytes, ff_tokens, process_prompt need the parser state and are outside."),
+   note="chop_tokens as a whole does not fit CBMC (12.9 GB at 400 s); its token/byte accounting loop is decided as a source slice with symbolic token lengths. forced_byte's probe, force_bytes, ff_tokens, process_prompt need the parser state and are outside."),
  "C15": dict(level="translation_validation", engine="E2-export-smt+E1-kani", design="DESIGN.md §3 C15",
    technique="two-sided CYK encoding in z3 on Grammar::to_string before/after the real Grammar::optimize(), shared symbolic terminal word; Kani for the union-find of expand_shortcuts",
    text="For hand-written grammars, Lark snippets found in /repo's tests and docs, JSON schemas and seeded random grammars (chains, single/multi users, self reference, captures, max_tokens, nullable rules) the solver decides that before/after grammars derive the same terminal words up to N and that capture/max_tokens symbols survive; uf_find/uf_union/uf_compress_all are checked on every acyclic parent array of 6 symbols.",
